@@ -8,7 +8,8 @@ from props import time_common as tc
 
 def run(ctx):
     ctx.rule = ("(domain, range, query pair): curated and random domains 1 ms..250 y in 1900-2199, five ranges of either orientation, queries at the "
-                "end points, inside and up to 5 spans outside; non-trivial = query strictly inside or outside (not an end point); distinct by all inputs")
+                "end points, inside and up to 5 spans outside; non-trivial = query strictly inside or outside (not an end point); distinct by all inputs; "
+                "plus call histories (domain/range/clamp/nice/copy/ticks on up to 4 scales): every maximal history of the heap model's state graph and random ones")
     ctx.assumptions += ["mapped floats are carried exactly as integers x 1e9 (BigNat); exact proportionality is cross-multiplied in BigNat on "
                         "milliseconds since the epoch; tolerance 1e-9 of the range magnitude times the extrapolation factor"]
     ctx.model("Tz", "MCTz.cfg", workers=1, label="zone-free conversions are affine by construction")
@@ -19,7 +20,50 @@ def run(ctx):
     ctx.evaluations += len(recs)
     ctx.nontrivial += len({json.dumps([r["dom"], r["t"], r["t2"], r["r0"], r["r1"]]) for r in recs if r["t"] not in (r["dom"][0] + [0], r["dom"][1] + [0])})
     ctx.sample(recs[0])
+    histories(ctx)
+
+
+def histories(ctx):
+    """every time scale, however it was obtained: call histories of the heap model replayed on real TimeScale objects"""
+    from props import c12
+    quick = ctx.tier == "quick"
+    maxlen = 4 if quick else 5
+    hs = c12.tlc_histories(ctx, maxlen)
+    leaves = [h for h in hs if len(h) == maxlen]
+    leaves = leaves[(ctx.seed % 3)::3] if quick else leaves[(ctx.seed % 2)::2]
+    jobs = []
+    per = (len(leaves) + core.NCPU - 1) // core.NCPU
+    for k in range(core.NCPU):
+        jobs.append({"script": "d_timescale.py", "stdin_obj": {"mode": "hist", "seed": ctx.seed * 19 + k, "histories": leaves[k * per:(k + 1) * per],
+                                                              "count": (480 if quick else 8000) // core.NCPU}})
+    recs = []
+    for out in core.run_drivers_parallel(jobs):
+        recs += out["records"]
+    fails = ctx.validate("TimeHistTrace", "TimeHistTrace.cfg", recs, expect="init", per_shard=200)
+    for idx, inv in fails:
+        if not inv.startswith("C15_"):
+            raise core.MachineryError("heap model does not explain history %s (%s)" % (json.dumps(recs[idx]["ev"])[:400], inv))
+        ctx.report("%s history" % inv, " ".join("%s%d%s" % (e["a"], e["i"], e["x"]) for e in recs[idx]["ev"]), {"record": recs[idx]})
+    drift, st = core.validate_records("TimeHistTrace", "TimeHistDrift.cfg", recs, expect="init", per_shard=200)
+    ctx.states += st["distinct"]
+    ctx.transitions += st["generated"]
+    ctx.extra["history_conformance"] = {"histories_replayed_on_TimeScale_objects": len(recs), "from_TLC_state_graph": len(leaves),
+                                        "explained_by_heap_model_LinScale.tla": len(recs) - len({i for i, _ in drift}),
+                                        "spec_drift": len({i for i, _ in drift})}
+    if drift:
+        ctx.notes.append("spec drift: %d TimeScale histories are not explained by the heap model (first: %s: %s)" % (
+            len(drift), drift[0][1], " ".join("%s%d%s" % (e["a"], e["i"], e["x"]) for e in recs[drift[0][0]]["ev"])))
+    ctx.evaluations += len(recs)
+    ctx.nontrivial += len({json.dumps([[e["a"], e["i"], e["x"]] for e in r["ev"]]) + r["ev"][-1]["obs"][0]["yp"] for r in recs
+                           if any(e["a"] in "NYF" for e in r["ev"])})
 
 
 def replay(path):
+    d = json.load(open(path))
+    rec = d["replay"].get("record", {})
+    if "ev" in rec:
+        fails, _ = core.validate_records("TimeHistTrace", "TimeHistTrace.cfg", [rec], expect="init")
+        for idx, inv in fails:
+            print("VIOLATION property=C15 replay=%s\n  clause: %s (recorded observation re-validated)" % (path, inv))
+        return 1 if fails else 0
     return tc.replay(path, "C15")
